@@ -48,14 +48,20 @@ CHECKS["C09"] = dict(level="exploration", engine="seqx",
    text="Metric m on every non-empty subset of a 2x2 label universe (15) plus a second metric on a different subset, 3 shared timestamps, under open / block-rotated / segment-rotated / restarted layouts: all 624 matcher sets of <=2 matchers over =,!=,=~,!~ and values a, b, a|b, .*, .+, empty; sum/min/max/avg/count x 6 grouping clauses; m op n and m op 2 for + - * /. Every returned label set, timestamp and value is compared with the model (which also gives avg = sum/count, min <= avg <= max, by-all-labels = identity).",
    note="Grid discipline: shared timestamps, windows <= 360 s, so no look-back rule is needed; __name__ ignored. Known: `without` removing all labels returns nothing.",
    ref="DESIGN.md §4 C09")
+CHECKS["C07"] = dict(level="fault_enumeration", engine="crashfs",
+   technique="exhaustive crash-point enumeration: every prefix of the recorded file-system operation log of a write history is materialised by a model file system (conformance-checked byte for byte against the real directory) and recovered by a fresh process of the real code",
+   text="7 write histories (one and two flushes, flush+rotation, new segment after rotation, repeated rotation, two indexes, registered persistent query; thorough adds every history of <=4 ingest/flush/rotate operations) run in a child whose package os (build overlay of 4 GOROOT files) reports each mutating operation on the data directory in the order it took effect. Every distinct log prefix (about 1500 crash states in quick) is recovered by a new process booted through the production start-up path: start-up succeeds, every event of a flush completed before the cut is returned exactly once with its content, the flush in progress is all-or-nothing per index buffer, no garbage rows or errors, and one more ingest+rotation loses nothing.",
+   note="Process-crash model (completed system calls persist; no torn writes). Per-column writer goroutines are explored in the observed order only; their files become visible only through the later block-summary append, see DESIGN C07. Data directory is configured relative to cwd so that a materialised copy is self-contained. One fix (tmp+rename of .sfm) and one known finding (new column of an in-progress flush).",
+   ref="DESIGN.md §2.3, §4 C07")
 NOT_YET = {}
 props = [json.loads(l) for l in open("properties.jsonl")]
 m = {"version": 1, "setup_cmd": "./vcheck setup",
  "hooks": {"guard": "verif (go build tag) + go build -overlay generated from /repo's working tree",
-   "enable": "./vcheck builds harness/cmd/sigcheck with `-tags verif -overlay $VERIF_CACHE/overlay.json`; the overlay only ADDS files (harness/overlay/files/...) to siglens packages; nothing is committed in /repo for hooks",
+   "enable": "./vcheck builds harness/cmd/sigcheck with `-tags verif -overlay $VERIF_CACHE/overlay.json`; the overlay only ADDS files (harness/overlay/_files/...) to siglens packages; nothing is committed in /repo for hooks",
    "baseline_off_cmd": "cd /repo && GOFLAGS=-mod=mod go test -vet=off -count=1 -timeout 25m ./...",
    "source_commits": [], "add_only": True},
  "engines": [
+   {"name": "crashfs", "path": "harness/kernel/crashfs.go", "serves_properties": [], "kind_free_text": "fault enumeration over every prefix of the logged file-system operations of a history; model fs + conformance check + recovery by a fresh process"},
    {"name": "seqx", "path": "harness/props", "serves_properties": [], "kind_free_text": "explicit-state / bounded-exhaustive search over operation histories of the real code in worker subprocesses, with Go reference models"},
  ],
  "checks": [], "not_applicable": [],
